@@ -533,6 +533,11 @@ def _ovf_cases(max_files):
                                        "ns": ns, "ids": ids}
                                 # disks without a backing file (an empty disk to be created at deployment) and drives without
                                 # a host resource (an empty drive): neither contributes a backing file
+                                if ni and (ni <= 1 or j % 21 == 0):
+                                    # the virtual system inside one / two nested collections (a multi-VM package)
+                                    for coll in (1, 2):
+                                        yield {"kind": "ovf", "files": nf, "disks": list(refs), "items": [list(i) for i in items],
+                                               "ns": ns, "ids": ids, "collection": coll}
                                 if ni <= 1 or j % 21 == 0:
                                     for empty in ("disk-first", "disk-last", "drive-first", "drive-last", "both"):
                                         yield {"kind": "ovf", "files": nf, "disks": list(refs), "items": [list(i) for i in items],
@@ -571,7 +576,9 @@ def _do_ovf(case):
         x.append(f'  <{e}Disk {a}capacity="1024" {a}diskId="{did(i)}" {a}fileRef="{fid(ref)}"/>')
     if empty == "disk-last":
         x.append(empty_disk)
-    x += [f" </{e}DiskSection>", f' <{e}VirtualSystem {a}id="vm">', f"  <{e}VirtualHardwareSection>"]
+    coll = case.get("collection", 0)
+    x += [f" </{e}DiskSection>"] + [f' <{e}VirtualSystemCollection {a}id="group{c}"><{e}Info>group</{e}Info>' for c in range(coll)]
+    x += [f' <{e}VirtualSystem {a}id="vm">', f"  <{e}VirtualHardwareSection>"]
     if empty in ("drive-first", "both"):
         x += empty_drive
     targets = [("disk", i) for i in range(len(refs))] + [("file", i) for i in range(nf)]
@@ -587,7 +594,7 @@ def _do_ovf(case):
             exp.append(files[refs[tidx]] if tk == "disk" else files[tidx])
     if empty == "drive-last":
         x += empty_drive
-    x += [f"  </{e}VirtualHardwareSection>", f" </{e}VirtualSystem>", f"</{e}Envelope>"]
+    x += [f"  </{e}VirtualHardwareSection>", f" </{e}VirtualSystem>"] + [f" </{e}VirtualSystemCollection>"] * coll + [f"</{e}Envelope>"]
     o = OVF(io.StringIO("\n".join(x)))
     if shared and len({did(i) for i in range(len(refs))}) < len(refs):
         return exp, exp, False  # two disks with the same id: not a well-formed graph
@@ -675,6 +682,10 @@ def _pvs_cases():
                 continue
             seen.add(perm)
             yield {"kind": "pvs", "devs": list(perm)}
+            if nh:
+                # a hard disk device without an image attached (empty element): it has no backing file
+                for form in ("empty-tag", "empty-pair"):
+                    yield {"kind": "pvs", "devs": list(perm), "unattached": form}
 
 
 def _do_pvs(case):
@@ -687,10 +698,14 @@ def _do_pvs(case):
         name = {"Hdd": f"Fedora-{i} ü.hdd", "CdRom": f"install-{i}.iso", "Fdd": f"floppy-{i}.fdd"}[d]
         # physical / Boot Camp disks list their partitions, each with a SystemName of its own (a device node, not a disk image)
         part = [f'   <Partition id="{k}"><SystemName>/dev/disk{i}s{k + 1}</SystemName></Partition>' for k in range(2)]
+        first_hdd = d == "Hdd" and "Hdd" not in case["devs"][:i]
+        sysname = f"   <SystemName>{name}</SystemName>"
+        if first_hdd and case.get("unattached"):
+            sysname = "   <SystemName/>" if case["unattached"] == "empty-tag" else "   <SystemName></SystemName>"
         x += [f'  <{d} dyn_lists="Partition 0" id="{i}">', f"   <Index>{i}</Index>"] + (part if i % 4 == 1 else []) + [
-            f"   <SystemName>{name}</SystemName>", f"   <UserFriendlyName>{name}</UserFriendlyName>"] + (part if i % 4 == 3 else []) + [
+            sysname, f"   <UserFriendlyName>{name}</UserFriendlyName>"] + (part if i % 4 == 3 else []) + [
             f"  </{d}>"]
-        if d == "Hdd":
+        if d == "Hdd" and not (first_hdd and case.get("unattached")):
             exp.append(name)
     x += [" </Hardware>", "</ParallelsVirtualMachine>"]
     got = _twice(PVS(io.StringIO("\n".join(x))).disks)
